@@ -216,7 +216,7 @@ SUBS = ["pkg.s1", "pkg.s2"]
 
 def new_spec() -> dict:
     return {"imports": [], "classes": [], "funcs": [], "mk": [], "uses": [], "attruses": [], "body": [],
-            "fromuses": [], "comment": 0}
+            "fromuses": [], "infer": [], "iuses": [], "comment": 0}
 
 
 def render_module(name: str, sp: dict, stub: bool = False) -> str:
@@ -245,6 +245,10 @@ def render_module(name: str, sp: dict, stub: bool = False) -> str:
             L.append(f"{v}: {t} = {mod}.{f}()" + ("  # type: ignore" if ign else ""))
         for v, t, mod, f, ign in sp["attruses"]:
             L.append(f"{v}: {t} = {mod}.{f}().attr" + ("  # type: ignore" if ign else ""))
+        for v, mod, f in sp.get("infer", []):       # inferred type: the module's interface depends on the dependency's
+            L.append(f"{v} = {mod}.{f}()")
+        for v, t, mod, ign in sp.get("iuses", []):
+            L.append(f"{v}: {t} = {mod}.i0" + ("  # type: ignore" if ign else ""))
         for v, t, nm, ign in sp["fromuses"]:
             L.append(f"{v}: {t} = {nm}()" + ("  # type: ignore" if ign else ""))
         for h, bad, lazy in sp["body"]:
@@ -302,7 +306,11 @@ def add_use(rng, sp: dict, d: str) -> None:
     if ("import", d) not in sp["imports"]:
         sp["imports"].append(("tc", d) if r > 0.93 else ("import", d))
     r = rng.random()
-    if r < 0.45:
+    if r < 0.12:
+        sp.setdefault("infer", []).append((f"i{len(sp.get('infer', []))}", d, rng.choice(["f0", "f1"])))
+    elif r < 0.24:
+        sp.setdefault("iuses", []).append((f"j{k}", rng.choice(TYPES), d, rng.random() < 0.1))
+    elif r < 0.45:
         sp["uses"].append((f"u{k}", rng.choice(TYPES), d, rng.choice(["f0", "f1"]), rng.random() < 0.15))
     elif r < 0.7:
         sp["mk"].append((f"mk{len(sp['mk'])}", d, "C0"))
@@ -351,7 +359,7 @@ def gen_program(rng) -> dict:
 
 EDITS = ["ret_type", "ret_type", "attr_type", "body", "body", "comment", "touch", "add_import", "add_cycle",
          "del_import", "del_mod", "add_mod", "add_stub", "del_stub", "toggle_ignore", "add_sub", "del_sub",
-         "lazy_import", "retarget", "syntax", "two_at_once"]
+         "lazy_import", "retarget", "syntax", "two_at_once", "follow_imports", "fromsub"]
 
 
 def apply_edit(rng, prog: dict, removed: dict) -> tuple[dict, str]:
@@ -399,6 +407,8 @@ def apply_edit(rng, prog: dict, removed: dict) -> tuple[dict, str]:
                 sp["uses"] = [u for u in sp["uses"] if u[2] != tgt and u[2] != (imp[2] if len(imp) > 2 else None)]
                 sp["attruses"] = [u for u in sp["attruses"] if u[2] != tgt]
                 sp["mk"] = [u for u in sp["mk"] if u[1] != tgt]
+                sp["infer"] = [u for u in sp.get("infer", []) if u[1] != tgt]
+                sp["iuses"] = [u for u in sp.get("iuses", []) if u[2] != tgt]
                 sp["classes"] = [c for c in sp["classes"] if not (c[1] or "").startswith(tgt + ".")]
                 if imp[0] == "from":
                     sp["fromuses"] = [u for u in sp["fromuses"] if u[2] != imp[2]]
@@ -457,6 +467,18 @@ def apply_edit(rng, prog: dict, removed: dict) -> tuple[dict, str]:
             u[1] = rng.choice([x for x in TYPES if x != u[1]])
             sp["uses"][i] = tuple(u)
             return p, f"retarget {m}.{u[0]}"
+        if kind == "follow_imports" and prog["roots"] == "entry":
+            cur = p.get("flags") or []
+            p["flags"] = rng.choice([x for x in ([], ["--follow-imports=silent"], ["--follow-imports=skip"]) if x != cur])
+            return p, f"follow_imports {' '.join(p['flags']) or 'normal'}"
+        if kind == "fromsub" and "pkg" in p["mods"] and not m.startswith("pkg"):
+            # `from pkg import sN`: sN is a submodule only while pkg/sN.py exists (it may not exist now)
+            sN = rng.choice(SUBS).split(".")[1]
+            if not any(i[0] == "from" and i[1] == "pkg" and i[2] == sN for i in sp["imports"]):
+                sp["imports"].append(("from", "pkg", sN, rng.random() < 0.3))
+                if rng.random() < 0.7:
+                    sp["uses"].append((f"q{sN}{len(sp['uses'])}", rng.choice(TYPES), sN, "f0", False))
+                return p, f"fromsub {m}:{sN}"
         if kind == "syntax" and rng.random() < 0.4:
             sp["syntax_error"] = not sp.get("syntax_error")
             return p, f"syntax {m}"
@@ -469,9 +491,32 @@ def apply_edit(rng, prog: dict, removed: dict) -> tuple[dict, str]:
     return p, "comment main"
 
 
+def hand_histories() -> list[dict]:
+    """Fixed histories run first in every tier: the `from pkg import name` probe (finding F6) and its relatives."""
+    def H(idx, key, roots, *files):
+        return {"idx": idx, "roots": roots, "key": key, "descs": ["initial"] + [f"hand-edit-{i}" for i in range(1, len(files))],
+                "states": [{"files": f, "touch": [], "flags": []} for f in files]}
+    sub = "def f0() -> int:\n    return 0\n"
+    b0 = {"main.py": "from pkg import name\n", "pkg/__init__.py": ""}
+    b1 = dict(b0, **{"pkg/name.py": sub})
+    u0 = {"main.py": "from pkg import name\ny: str = name.f0()\n", "pkg/__init__.py": ""}
+    u1 = dict(u0, **{"pkg/name.py": sub})
+    m0 = {"main.py": "import pkg.name\ny: str = pkg.name.f0()\n", "pkg/__init__.py": ""}
+    m1 = dict(m0, **{"pkg/name.py": sub})
+    return [
+        H(9001, "F6:from-import-name-becomes-submodule", "entry", b0, b1),
+        H(9002, "F6:from-import-name-becomes-submodule", "all", b0, b1, b0, b1),
+        H(9003, "hand:from-import-used-name-becomes-submodule", "entry", u0, u1, u0),
+        H(9004, "hand:submodule-removed", "entry", b1, b0, b1),
+        H(9005, "hand:import-pkg.name-appears", "entry", m0, m1, m0),
+    ]
+
+
 def gen_history(seed: int, idx: int, steps: int | None = None) -> dict:
     rng = vlib.Rng(seed, f"C02/history/{idx}")
     prog = gen_program(rng)
+    if prog["roots"] == "entry" and rng.random() < 0.25:
+        prog["flags"] = ["--follow-imports=silent"]
     removed: dict = {}
     progs = [prog]
     descs = ["initial"]
@@ -483,7 +528,7 @@ def gen_history(seed: int, idx: int, steps: int | None = None) -> dict:
         descs.append(d)
     states = []
     for p in progs:
-        st = {"files": render(p), "touch": []}
+        st = {"files": render(p), "touch": [], "flags": list(p.get("flags") or [])}
         if p.get("touch"):
             st["touch"] = [mod_path(p["touch"], p)] if p["touch"] in p["mods"] else []
         states.append(st)
@@ -588,6 +633,10 @@ class Prewarmed:
         shutil.copytree(self.dirs[cfg], dst, copy_function=shutil.copy2)
 
 
+def state_flags(h: dict, st: dict) -> list[str]:
+    return list(st.get("flags") or h.get("flags") or [])
+
+
 def run_history(h: dict, cfg: str, pre: Prewarmed, base: str, true_cold_steps: tuple = (), keep: bool = False) -> dict:
     """Run one history under one configuration: after every edit a warm run (cache carried along) and an
     independent cold run (fresh copy of the typeshed-only cache: every user module is cold)."""
@@ -603,15 +652,16 @@ def run_history(h: dict, cfg: str, pre: Prewarmed, base: str, true_cold_steps: t
             write_state(proj, prev, st, k)
             prev = st
             roots = root_args(h["roots"], st)
-            warm = run_mypy(proj, wcache, cfg, roots, work, f"w{k}")
+            fl = state_flags(h, st)
+            warm = run_mypy(proj, wcache, cfg, roots, work, f"w{k}", fl)
             ccache = os.path.join(work, f"ccache{k}")
             pre.copy_to(cfg, ccache)
-            cold = run_mypy(proj, ccache, cfg, roots, work, f"c{k}")
+            cold = run_mypy(proj, ccache, cfg, roots, work, f"c{k}", fl)
             shutil.rmtree(ccache, ignore_errors=True)
             rec = {"k": k, "warm": warm, "cold": cold}
             if k in true_cold_steps:
                 tc = os.path.join(work, f"tcache{k}")
-                rec["cold2"] = run_mypy(proj, tc, cfg, roots, work, f"t{k}")
+                rec["cold2"] = run_mypy(proj, tc, cfg, roots, work, f"t{k}", fl)
                 shutil.rmtree(tc, ignore_errors=True)
             steps.append(rec)
     finally:
@@ -700,6 +750,7 @@ Definition t_analyze (t : list (modid * result)) (S : list modid) (src : modid -
 Definition t_reach (t : list (modid * modid)) (dm : list (modid * list modid)) (m d : modid) : bool :=
   existsb (fun p => Nat.eqb (fst p) m && Nat.eqb (snd p) d) t.
 Definition t_sdo (l : list modid) (o : opts) : nat := match l with [] => 0 | _ => 1 end.
+Definition t_ign (t : list modid) (m : modid) (s : stamp) (o : opts) : bool := mem m t.
 Definition mk_store (l : list (modid * (meta * meta_ex * data))) : store :=
   fold_left (fun c e => put_data (put_ex (put_meta c (fst e) (fst (fst (snd e)))) (fst e) (snd (fst (snd e)))) (fst e) (snd (snd e)))
             l empty_store.
@@ -707,10 +758,10 @@ Definition ME := Build_meta.
 Definition XE := Build_meta_ex.
 Definition case (cont : list (modid * content)) (imps : list (modid * (content * list modid))) (an : list (modid * result))
   (sccs : list (list modid)) (rch : list (modid * modid)) (ents : list (modid * (meta * meta_ex * data)))
-  (fs : FS) (o : opts) :=
+  (ign : list modid) (fs : FS) (o : opts) :=
   let c := mk_store ents in
-  (rechecked (t_content cont) (t_imports imps) (t_analyze an) (fun _ => sccs) (t_reach rch) t_sdo c fs o,
-   report fs (fst (run (t_content cont) (t_imports imps) (t_analyze an) (fun _ => sccs) (t_reach rch) t_sdo c fs o 1))).
+  (rechecked (t_content cont) (t_imports imps) (fun _ _ _ => []) (t_analyze an) (fun _ => sccs) (t_reach rch) t_sdo (t_ign ign) c fs o,
+   report fs (fst (run (t_content cont) (t_imports imps) (fun _ _ _ => []) (t_analyze an) (fun _ => sccs) (t_reach rch) t_sdo (t_ign ign) c fs o 1))).
 """
 
 
@@ -807,7 +858,7 @@ def model_cases(h: dict, res: dict) -> list[dict]:
                             todo += list(edges[x])
                     reach[i] = seen
                 rch = [f"({mods(m)}, {mods(d)})" for m in user for d in user if idx[d] in reach[idx[m]]]
-                term = (f"case {cl(cont)} {cl(imps)} {cl(an)} {cl(cl(mods(m) for m in s) for s in sccs)} {cl(rch)} {cl(ents)} {cl(fs)} ({o_txt})")
+                term = (f"case {cl(cont)} {cl(imps)} {cl(an)} {cl(cl(mods(m) for m in s) for s in sccs)} {cl(rch)} {cl(ents)} {cl(mods(m) for m in user if w["pre"][m].get("ignore_all"))} {cl(fs)} ({o_txt})")
                 exp_re = sorted(mods(m) for m in set(w["rechecked_modules"]) & uset)
                 exp_rep = {mods(m): [I(("e", tuple(x))) for x in w["entries"][m]["ex"]["errors"]] for m in user
                            if "ex" in w["entries"].get(m, {})}
@@ -930,6 +981,7 @@ def judge(ctx, hs: list[dict], results: list[dict], pre: Prewarmed, base: str) -
                               {"states": h["states"][: rec['k'] + 1], "roots": h["roots"]})
             if canon(w) != canon(c):
                 key, what = describe_diff(w, c)
+                key = h.get("key") or ("warm!=cold:" + key)
                 failing.setdefault(key, (h, r["cfg"], rec["k"], what))
     ctx.add("evaluations", n_steps)
     ctx.cov["warm_vs_cold_steps"] = n_steps
@@ -941,9 +993,9 @@ def judge(ctx, hs: list[dict], results: list[dict], pre: Prewarmed, base: str) -
         hh = copy.deepcopy(h)
         hh["states"] = hh["states"][: k + 1]
         hh["descs"] = hh["descs"][: k + 1]
-        small = shrink(hh, cfg, pre, base, budget_s=60 if ctx.quick else 240)
+        small = hh if h.get("key") else shrink(hh, cfg, pre, base, budget_s=60 if ctx.quick else 240)
         last = small["descs"][-1].split(" ")[0] if small["descs"] else "?"
-        ctx.violation(f"warm!=cold:{key}", f"warm run differs from cold run after history {small['descs']} [{cfg}]: {what}",
+        ctx.violation(key, f"warm run differs from cold run after history {small['descs']} [{cfg}]: {what}",
                       {"kind": "history", "cfg": cfg, "roots": small["roots"], "states": small["states"], "descs": small["descs"], "last_edit": last})
 
 
@@ -976,8 +1028,9 @@ def run(ctx) -> None:
         pre.build(cfgs)
         ctx.log(f"pre-warmed typeshed caches for {cfgs} ({time.time()-t:.0f}s)")
         nh = ctx.n(int(os.environ.get("C02_QUICK_N", "12")), int(os.environ.get("C02_THOROUGH_N", "300")))
-        hs = [gen_history(ctx.seed, i) for i in range(nh)]
-        ctx.cov["histories"] = nh
+        hs = hand_histories() + [gen_history(ctx.seed, i) for i in range(nh)]
+        ctx.cov["histories"] = len(hs)
+        ctx.cov["hand_histories"] = len(hs) - nh
         ctx.cov["edit_kinds"] = sorted({d.split(" ")[0] for h in hs for d in h["descs"]})
         results = s_oracle(ctx, hs, cfgs, pre, base, true_cold=True)
         t = time.time()
@@ -985,7 +1038,7 @@ def run(ctx) -> None:
         ctx.log(f"C: model evaluated on the observed cache records / graphs ({time.time()-t:.0f}s)")
         judge(ctx, hs, results, pre, base)
         ctx.cov["distinct_nontrivial"] = ctx.cov.get("steps_with_mixed_fresh_and_stale_user_modules", 0)
-        ctx.sample({"history": hs[0]["descs"], "roots": hs[0]["roots"], "files_step0": hs[0]["states"][0]["files"]})
+        ctx.sample({"history": hs[-1]["descs"], "roots": hs[-1]["roots"], "files_step0": hs[-1]["states"][0]["files"]})
     finally:
         shutil.rmtree(base, ignore_errors=True)
 
